@@ -179,7 +179,7 @@ func cmdFunc(args []string) {
 				r := jobs[i].res
 				ok := r.Status == "unsat"
 				if o.Cover {
-					ok = r.Status == "sat"
+					ok = r.Status != "unsat" && r.Status != "error"
 				}
 				mark := "ok  "
 				if !ok {
